@@ -467,6 +467,13 @@ int AsmContext::link()
 
     if (symbol == nullptr) { break; }
 
+    // An imported function starts on an instruction boundary.
+    if (cpu_list_index != -1 && cpu_list[cpu_list_index].alignment > 1)
+    {
+      const uint32_t mask = cpu_list[cpu_list_index].alignment - 1;
+      while ((address & mask) != 0) { address++; }
+    }
+
     symbols.append(symbol, address);
 
     uint8_t *code;
